@@ -149,23 +149,84 @@ Definition metric_line_body (fx : bool) (name : str) (suffix : option str) (labe
 Definition write_metric_line fx name suffix labels addl value unit : str :=
   metric_line_body fx name suffix labels addl value unit ++ [10].
 
+(* ---- Matcher (common.rs) and the two lookups of DistributionBuilder (distribution.rs) that decide
+   whether a histogram key is kept as a Prometheus histogram or as a summary.  set_buckets_for_metric
+   stores matcher.sanitized(); names and sanitised matchers are ASCII, so String::len is the
+   number of characters. *)
+Inductive mkind := MFull | MPrefix | MSuffix.
+Definition matcher := (mkind * str)%type.
+
+Fixpoint starts_with (p s : str) : bool :=
+  match p, s with
+  | [], _ => true
+  | x :: p', y :: s' => (x =? y) && starts_with p' s'
+  | _ :: _, [] => false
+  end.
+Definition ends_with (p s : str) : bool := starts_with (rev p) (rev s).
+
+(* Matcher::sanitized: a suffix is sanitised as the tail of a name (sanitize_metric_name("_" + s)[1..]) *)
+Definition matcher_sanitized (m : matcher) : matcher :=
+  match fst m with
+  | MSuffix => (MSuffix, List.tl (sanitize_metric_name (95 :: snd m)))
+  | k => (k, sanitize_metric_name (snd m))
+  end.
+
+(* Matcher::matches *)
+Definition matches (m : matcher) (key : str) : bool :=
+  match fst m with
+  | MPrefix => starts_with (snd m) key
+  | MSuffix => ends_with (snd m) key
+               || (Nat.eqb (List.length key) (List.length (snd m)) && str_eqb key (sanitize_metric_name (snd m)))
+  | MFull => str_eqb key (snd m)
+  end.
+
+Definition any_override (ovs : list matcher) (name : str) : bool :=
+  existsb (fun m => matches (matcher_sanitized m) name) ovs.
+
+(* DistributionBuilder::get_distribution_type(name) == "histogram": global buckets first, then overrides *)
+Definition dist_type_hist (gb : bool) (ovs : list matcher) (name : str) : bool := gb || any_override ovs name.
+(* DistributionBuilder::get_distribution(name) is a histogram: overrides first, then global buckets *)
+Definition dist_emit_hist (gb : bool) (ovs : list matcher) (name : str) : bool := any_override ovs name || gb.
+
 (* ---- Inner::render: one family per (sanitised) name; what the snapshot holds is input data *)
 Inductive kind := KCounter | KGauge | KSummary | KHistogram.
+Inductive fkind := FCounter | FGauge | FDist.
 
 Record series := {
   s_labels : list (str * str);   (* the key's own labels, raw *)
   s_value : str;                 (* counter / gauge: formatted value *)
-  s_points : list (str * str);   (* summary: (quantile, value); histogram: (le, cumulative count) *)
+  s_points : list (str * str);   (* if rendered as a summary: (quantile, value) *)
+  s_buckets : list (str * str);  (* if rendered as a histogram: (le, cumulative count) *)
   s_sum : str;
   s_count : str }.
 
 Record family := {
-  f_kind : kind;
+  f_kind : fkind;
   f_name : str;                              (* raw key name *)
   f_desc : option (str * option unit_t);     (* the stored description (first describe_* call) *)
   f_series : list series }.
 
-Record rcase := { unit_on : bool; globals : list (str * str); fams : list family }.
+Record rcase := {
+  unit_on : bool;
+  gbuckets : bool;                 (* set_buckets was called *)
+  overrides : list matcher;        (* set_buckets_for_metric calls, raw matchers *)
+  globals : list (str * str);
+  fams : list family }.
+
+(* the word on the TYPE line: get_distribution_type on the BASE (sanitised) name *)
+Definition type_kind (gb : bool) (ovs : list matcher) (f : family) : kind :=
+  match f_kind f with
+  | FCounter => KCounter
+  | FGauge => KGauge
+  | FDist => if dist_type_hist gb ovs (sanitize_metric_name (f_name f)) then KHistogram else KSummary
+  end.
+(* which samples are written: the Distribution created at drain time by get_distribution(base name) *)
+Definition emit_kind (gb : bool) (ovs : list matcher) (f : family) : kind :=
+  match f_kind f with
+  | FCounter => KCounter
+  | FGauge => KGauge
+  | FDist => if dist_emit_hist gb ovs (sanitize_metric_name (f_name f)) then KHistogram else KSummary
+  end.
 
 Definition type_word (k : kind) : str :=
   lit (match k with KCounter => "counter" | KGauge => "gauge" | KSummary => "summary" | KHistogram => "histogram" end)%string.
@@ -182,7 +243,7 @@ Definition render_series (fx : bool) (k : kind) (name : str) (unit : option unit
       ++ write_metric_line fx name (Some (lit "count")) labels None (s_count s) unit
   | KHistogram =>
       flat_map (fun lc => write_metric_line fx name (Some (lit "bucket")) labels (Some (lit "le", fst lc)) (snd lc) unit)
-               (s_points s)
+               (s_buckets s)
       ++ write_metric_line fx name (Some (lit "bucket")) labels (Some (lit "le", lit "+Inf")) (s_count s) unit
       ++ write_metric_line fx name (Some (lit "sum")) labels None (s_sum s) unit
       ++ write_metric_line fx name (Some (lit "count")) labels None (s_count s) unit
@@ -197,13 +258,13 @@ Definition header_name (fx on : bool) (f : family) : str :=
   let name := sanitize_metric_name (f_name f) in
   if fx then name ++ unit_suffix (eff_unit on f) else name.
 
-Definition render_family (fx on : bool) (globals : list (str * str)) (f : family) : str :=
+Definition render_family (fx on gb : bool) (ovs : list matcher) (globals : list (str * str)) (f : family) : str :=
   let name := sanitize_metric_name (f_name f) in
   let unit := eff_unit on f in
   (match f_desc f with Some (d, _) => write_help_line (header_name fx on f) d | None => [] end)
-  ++ write_type_line (header_name fx on f) (type_word (f_kind f))
-  ++ flat_map (render_series fx (f_kind f) name unit globals) (f_series f)
+  ++ write_type_line (header_name fx on f) (type_word (type_kind gb ovs f))
+  ++ flat_map (render_series fx (emit_kind gb ovs f) name unit globals) (f_series f)
   ++ [10].
 
 Definition render_text (fx : bool) (rc : rcase) : str :=
-  flat_map (render_family fx (unit_on rc) (globals rc)) (fams rc).
+  flat_map (render_family fx (unit_on rc) (gbuckets rc) (overrides rc) (globals rc)) (fams rc).
